@@ -14,8 +14,9 @@ from . import fp as fpm
 from . import mon
 
 PREFIX = 'vx'                 # every grammar name used by the simulator starts with this
-REF_BUDGET = 400_000          # steps a reference operation may take before it is 'nontermination'
-SIM_BUDGET_CAP = 3_000_000
+REF_BUDGET = 150_000          # steps a reference operation may take before it is 'nontermination'
+SIM_BUDGET_CAP = 2_000_000
+HARD_CAP = 4_000_000           # total steps of one top-level operation including everything nested in it
 
 
 class UserAbort(Exception):
@@ -78,6 +79,7 @@ class ExecCtx:
         self.env = env
         self.task = task
         self.stack = []
+        self.hard = float('inf')
 
 
 def _ctx():
@@ -171,10 +173,16 @@ def compile_desc(desc, watch=True, include_source=False):
     """The real thing: sourcer.Grammar on a description; arms the user-code seam."""
     from sourcer import Grammar
     m = Grammar(desc, include_source=True) if include_source else Grammar(desc)
-    arm(m)
     if watch:
-        mon.watch(mon.codes_of_module(m))
+        mon.watch(generated_codes(m))
+    arm(m)
     return m
+
+
+def generated_codes(m):
+    """Code objects compiled from generated source (file name '<...>'): not the re module's compile
+    that a grammar module imports, not the harness callbacks it is armed with."""
+    return [c for c in mon.codes_of_module(m) if c.co_filename.startswith('<') and c.co_filename.endswith('>')]
 
 
 def fresh_text(text):
@@ -221,9 +229,14 @@ def run_op(env, ctx, op, path=()):
         ctx.stack.append(fr)
         start = task.local if task is not None else 0
         saved_deadline = None
-        if task is not None and len(ctx.stack) == 1:
+        hard = False
+        if task is not None:
+            # every operation, nested or not, has its own budget; steps of a nested operation do
+            # not count against the enclosing one; one hard cap bounds the whole top-level operation
             saved_deadline = task.deadline
-            task.deadline = task.local + int(op.get('budget', REF_BUDGET))
+            if len(ctx.stack) == 1:
+                ctx.hard = task.local + HARD_CAP
+            task.deadline = min(task.local + int(op.get('budget', REF_BUDGET)), ctx.hard)
         try:
             try:
                 fn = entry_fn(h.module, op['entry'])
@@ -237,10 +250,13 @@ def run_op(env, ctx, op, path=()):
             out, raw = {'err': 'nontermination'}, None
         finally:
             ctx.stack.pop()
-            if saved_deadline is not None:
+            if task is not None:
+                hard = task.local >= ctx.hard
+                if saved_deadline is not None and saved_deadline != mon.INF:
+                    saved_deadline += task.local - start
                 task.deadline = saved_deadline
-        if out.get('err') == 'nontermination' and ctx.stack:
-            # the budget belongs to the outermost operation: a nested call must not swallow it
+        if hard and ctx.stack:
+            # the hard cap belongs to the outermost operation: a nested call must not swallow it
             raise mon.StepBudget()
         if task is not None:
             env.last_raw[task.i] = raw
